@@ -8,7 +8,8 @@
 //   cfg words: <page size, decimal> <regions: hexstart-hexend,... | none>      (registry: boot_configs.inc)
 //   ops:  cp <hex> | cpc <hex>      Write Request / Write Command to the control point
 //         data <hex> | datac <hex>  Write Request / Write Command to the data characteristic
-//         endflash                  handler reports the end of a flash operation (bootloader::end_flash)
+//         endflash                  handler reports the end of a flash operation (bootloader::end_flash);
+//                                   ignored unless a start_flash() call is still unanswered
 //         run                       application main loop: performs the requested call backs
 //                                   (bootloader_control_point_notification / bootloader_data_indication)
 //         out                       link layer polls l2cap_output with a 23 byte buffer
@@ -35,7 +36,7 @@ namespace {
     class boot_handler
     {
     public:
-        boot_handler() : read_error_( false ), cp_requested_( false ), data_requested_( false ) {}
+        boot_handler() : read_error_( false ), cp_requested_( false ), data_requested_( false ), flashing_( 0 ) {}
 
         std::uint8_t peek( std::uintptr_t a ) const
         {
@@ -103,6 +104,7 @@ namespace {
         {
             g_log.push_back( "sf:" + hexn( address ) + ":" + verif::hex_of_bytes( values, size ) );
             for ( std::size_t i = 0; i != size; ++i ) memory_[ address + i ] = values[ i ];
+            ++flashing_;
             return bluetoe::bootloader::error_codes::success;
         }
 
@@ -123,6 +125,7 @@ namespace {
 
         std::map< std::uintptr_t, std::uint8_t > memory_;
         bool read_error_, cp_requested_, data_requested_;
+        unsigned flashing_;     // start_flash() calls not yet answered by end_flash()
     };
 
     std::string with_log( std::string status )
@@ -142,17 +145,20 @@ namespace {
 
         static constexpr std::uint16_t cp_handle = 3, cp_cccd = 4, data_handle = 6, data_cccd = 7, prog_handle = 9, prog_cccd = 10;
 
+        // zero-filled storage: flash_buffer::crc_ / consecutive_ / addr_ and controller::error are not
+        // initialised by their constructors (a progress report before the first page would carry them)
+        void*           mem;
         Server*         srv;
         connection_t*   con;
 
-        boot_subject() : srv( new Server() ), con( new connection_t() )
+        boot_subject() : mem( std::calloc( 1, sizeof( Server ) ) ), srv( new ( mem ) Server() ), con( new connection_t() )
         {
             srv->notification_callback( &cb, this );
             // fixed handle layout of a server with this single service: checked by subscribing
             subscribe( cp_cccd, 1 ); subscribe( data_cccd, 2 ); subscribe( prog_cccd, 1 );
             g_log.clear();
         }
-        ~boot_subject() { delete srv; delete con; }
+        ~boot_subject() { srv->~Server(); std::free( mem ); delete con; }
 
         void subscribe( std::uint16_t h, std::uint8_t v )
         {
@@ -208,7 +214,12 @@ namespace {
                 if ( r.size() >= 1 && r[ 0 ] == 0x0b ) return with_log( "val " + verif::hex_of_bytes( r.data() + 1, r.size() - 1 ) );
                 return with_log( status( r, 0x0b ) );
             }
-            if ( w[ 0 ] == "endflash" ) { bluetoe::bootloader::end_flash( *srv ); return with_log( "-" ); }
+            if ( w[ 0 ] == "endflash" )
+            {
+                // the handler reports the end of a flash operation exactly once per start_flash()
+                if ( h.flashing_ ) { --h.flashing_; bluetoe::bootloader::end_flash( *srv ); }
+                return with_log( "-" );
+            }
             if ( w[ 0 ] == "run" )
             {
                 if ( h.cp_requested_ )   { h.cp_requested_ = false;   srv->bootloader_control_point_notification( *srv ); }
